@@ -19,8 +19,8 @@ for pid in ALL:
         "replay_cmd_template": "./check %s --replay {path}" % pid,
         "engine": "verus-contracts",
         "level_claimed": {"category": "proof", "text": P["level_text"], "design_ref": "DESIGN.md section 4, %s" % pid},
-        "level_note": P["level_note"],
-        "technique": P["technique"],
+        "level_note": P["level_note"] + ("" if not P.get("native_bounded") else " | BOUNDED stand-ins on the real crates for parts no contract decides (never counted as proved, reported under coverage.bounded_checks): " + " ".join("%s [%s]: %s." % (h["dir"], ", ".join(h.get("families", [])), h["bound"]) for h in P["native_bounded"])),
+        "technique": P["technique"] + ("" if not P.get("native_bounded") else "; plus native bounded harnesses (exhaustive small-scope runs of the real crates against references written from the property) as stated-bound stand-ins"),
     })
 na = [{"property_id": pid, "reason": props.NOT_APPLICABLE[pid]} for pid in ALL if pid not in props.PROPS]
 m = {
@@ -35,7 +35,7 @@ m = {
     },
     "engines": [
         {"name": "verus-contracts", "path": "/verif/check", "serves_properties": [c["property_id"] for c in checks],
-         "kind_free_text": "contract-based deductive verification: Verus on functions extracted mechanically from /repo on every run (tools/extract.py), contracts in units/*.vc; Kani function-level harnesses for loop-free helpers (complete) and bounded stand-ins (labelled bounded)"},
+         "kind_free_text": "contract-based deductive verification: Verus on functions extracted mechanically from /repo on every run (tools/extract.py), contracts in units/*.vc; Kani function-level harnesses for loop-free helpers (complete) and bounded stand-ins (labelled bounded); native bounded harnesses under harness/ (real crates, exhaustive small scope, labelled bounded) for the end-to-end parts no contract composes"},
     ],
     "checks": checks,
     "not_applicable": na,
